@@ -226,7 +226,7 @@ func makePlan(shs []shape, thorough bool) plan {
 			p.slices = append(p.slices, sliceDef{name: "cross/" + sh.name, shape: si, forms: without(formAssignments([]form{fCanon, fCRLF, fRaw}, sh.nslots), sh.objForms...), damages: damageVectors(n, 1, 1), flags: fls})
 		}
 	}
-	// the explorer finishes the subtree of slice 1 first and the rest of slice 0 last: put the attrsize slices right after slice 0
+	// best effort only (the 32 workers interleave subtrees): a single-worker DFS finishes the subtree of slice 1 first and the rest of slice 0 last, so the attrsize slices go right after slice 0
 	var front, rest []sliceDef
 	for i, sl := range p.slices {
 		if i > 0 && strings.HasPrefix(sl.name, "attrsize/") {
